@@ -293,7 +293,8 @@ Definition conv_obs (cfg : config) (evs : list event) : sx :=
       SL [XT "events"; SL (map canon_sx (show_events (merge_wire (visible evs))))];
       SL [XT "deliveries"; SL (sort_sx (deliveries evs))];
       SL [XT "panics"; XN (N.of_nat (count_panics cfg evs))];
-      SL [XT "waited"; XBool true]].
+      SL [XT "waited"; XBool true];
+      SL [XT "served"; XBool true]].
 
 Definition canon_obs (obs : list sx) : sx :=
   SL (XT "obs" ::
@@ -332,6 +333,11 @@ Definition conv_oracle (cfg : config) (be : backend) (obs expect : list sx) : li
                  ++ focus_oracle expect evs dels
                  ++ (match assoc1 "waited" obs with
                      | Some w => if sx_is "t" w then [] else [bs "C08"; bs "C20"]
+                     | None => []
+                     end)
+                 (* the connection handler never finished: a command was left without its reply *)
+                 ++ (match assoc1 "served" obs with
+                     | Some w => if sx_is "t" w then [] else [bs "C04"; bs "C20"]
                      | None => []
                      end))
       | _, _, _ => [bs "UNDECODABLE-OBSERVATION"]
